@@ -618,7 +618,6 @@ func VH_C17_known_flagged_start_Q() {
 		f, _, d, _, _ := p.eval(bs, Tolerance)
 		optimal = optimal && (!f || rDem <= d+1e-9)
 	}
-	vKnown("D46", true)
 	vAssert("C17.known.D46.optimal", optimal)
 }
 
